@@ -550,6 +550,37 @@ func suiteDaemon(h *H) {
 		h.emit(op("@RSYNCD: 27", "ro", args), res.class, leak(res.raw), true)
 		h.stat("daemon.args." + res.class)
 	}
+	// ---------------- options that make the transfer code print for the user of a command-line client, with and
+	// without --server on the argument lines: a daemon has no standard output; whatever the peer asks to have
+	// printed, the session runs or ends with an error and the daemon lives on (a crash of the process is attributed
+	// to the case that was running)
+	for _, extra := range [][]string{{"-n"}, {"-v"}, {"-nv"}, {"--progress"}, {"-P"}, {"--info=name,progress"}, {"--info=progress2"}, {"--stats"},
+		{"-i"}, {"--list-only"}, {"-vvv", "-n"}, {"--debug=all"}, {"-n", "--progress"}, {"-c", "-v"}} {
+		for _, withServer := range []bool{true, false} {
+			var pre []string
+			if withServer {
+				pre = []string{"--server"}
+			}
+			pull := append(append(append([]string{}, pre...), "--sender"), extra...)
+			pull = append(pull, "-r", ".", "ro/")
+			line := fmt.Sprintf("!daemon-useropts seed=%d pull %q", h.seed, pull)
+			h.begin(line)
+			res := talk(addr, "@RSYNCD: 27", "ro", pull, "pull", refOpts{}, false, "", nil)
+			h.emit(line, strings.SplitN(res.class, " ", 2)[0], leak(res.raw), true)
+			push := append(append([]string{}, pre...), extra...)
+			push = append(push, "-r", ".", "rw/")
+			uplNo++
+			line = fmt.Sprintf("!daemon-useropts seed=%d push %q", h.seed, push)
+			h.begin(line)
+			res = talk(addr, "@RSYNCD: 27", "rw", push, "push", refOpts{}, false, fmt.Sprintf("upl-%d.bin", uplNo), []byte("user-opts"))
+			v := ""
+			if r2 := talk(addr, "@RSYNCD: 27", "#list", nil, "pull", refOpts{}, false, "", nil); !strings.HasPrefix(r2.class, "list") {
+				v = "FAIL[C08] the daemon does not answer a module listing after this session: " + r2.class
+			}
+			h.emit(line, strings.SplitN(res.class, " ", 2)[0], v, true)
+			h.stat("daemon.useropts")
+		}
+	}
 	// ---------------- uploads: read-only modules of every kind, writable module with subdirectory targets
 	snap := func(dir string) string { return canarySnapshot(dir, filepath.Join(dir, "\x00none")) }
 	pushCase := func(module, target string, flags []string, hostileName string) {
